@@ -225,6 +225,10 @@ class C07(Prop):
                     choice = force
                 if choice == "bind":
                     cands = list(spec.required) + list(spec.optional)
+                    if rng.random() < 0.25:
+                        # bind an INTERMEDIATE value (a name some node of the graph produces): allowed ("a graph input or output")
+                        mids = [o for o in recv.outputs if any(o in n.inputs for n in recv.nodes.values())]
+                        cands = mids or cands
                     if not cands:
                         return None, None
                     k = rng.choice(cands)
